@@ -24,7 +24,9 @@ var (
 	// counter expressions in the documented syntax; expansions are pairwise disjoint
 	ExprPool = []string{"a/b", "a/bc", "x", "chart:{b1,b2,b3}", "chart2:{b}", "c:{b,bb}", "gopls/client:{vscode,vim}", "go/invocations", "b",
 		// bucket names are taken verbatim, white space included
-		"pad:{p, q}", "pad2:{r ,s}"}
+		"pad:{p, q}", "pad2:{r ,s}",
+		// further buckets of charts listed above, as entries of their own (with rates of their own)
+		"chart:{b4,b5}", "gopls/client:{emacs,other}", "c:{bbb}"}
 	StackPool = []string{"crash/crash", "gopls/bug", "stk", "a/stk"}
 	RatePool  = []float64{0, 0.1, 0.5, 0.9, 1}
 )
@@ -308,6 +310,15 @@ func CountFiles(t *rapid.T, cfg *telemetry.UploadConfig, ends []time.Time, o Fil
 			base = "other@v9.9.9-go1.1-plan9-mips-2001-01-01"
 		case 2:
 			base = fmt.Sprintf("data%d", len(files))
+		case 3:
+			// a program whose base name starts like the name of a local report (local.test is the test binary of a package "local")
+			base = "local." + strings.TrimPrefix(base, "cmd/")
+			if rapid.Bool().Draw(t, "localTest") {
+				base = fmt.Sprintf("local.test-%s-%s-%s-%s", f.GoVersion, f.GOOS, f.GOARCH, f.Begin.Format("2006-01-02"))
+			}
+		case 4:
+			// ... or ends like the name of a report
+			base = fmt.Sprintf("tool.json@v1-%s-%s-%s-%s.json", f.GoVersion, f.GOOS, f.GOARCH, f.End.Format("2006-01-02"))
 		}
 		for k := 0; usedNames[base]; k++ {
 			base = fmt.Sprintf("%s_%d", base, k)
